@@ -65,7 +65,11 @@ def parse_out(line):
 
 
 # numeric strings (and non-numbers) as control values -----------------------------------------------
-STRS = {"1": 1, "3": 3, " 2 ": 2, "0x10": 16, "-1": -1, "10": 10, "1.5": 1.5, "1e1": 10.0, "0.5": 0.5}
+STRS = {"1": 1, "3": 3, " 2 ": 2, "0x10": 16, "-1": -1, "10": 10, "1.5": 1.5, "1e1": 10.0, "0.5": 0.5,
+        # zero in every spelling (a zero step must be rejected also when it is a string)
+        "0": 0, "0.0": 0.0, "0x0": 0, "-0": 0, " 0e0 ": 0.0, "-0.0": -0.0}
+# strings that only occur in corpus/C16/strfor.txt
+STRS_CORPUS = {"9007199254740993": 9007199254740993}
 BAD = ["abc", "", "1x"]
 
 
@@ -85,6 +89,9 @@ def check_strings(ck, gvh, oracle):
     # former witnesses (corpus/C16/strfor.txt: three operands, a string operand written as its text in double quotes)
     for f in N.read_corpus("C16", "strfor.txt"):
         tr = tuple(("s", t[1:-1].replace("_", " ")) if t.startswith('"') else ("n", t) for t in f[:3])
+        for o in tr:
+            if o[0] == "s" and o[1] not in STRS:
+                STRS[o[1]] = STRS_CORPUS[o[1]]
         cases.insert(0, tr)
     bad = [("b", t) for t in BAD] + [("b", None)]
     for x in bad:
@@ -240,6 +247,25 @@ def build_nested(kind):
     return head + core + after
 
 
+def build_closure(which):
+    if which == "capture_after":
+        return ("local a, b, c = ...\nlocal fs = {}\nfor i = a, b, c do\n  fs[#fs + 1] = function() return i end\n  if #fs >= %d then break end\nend\n"
+                "for k = 1, #fs do emit(fs[k]()) end\n" % PCAP)
+    if which == "stale_setter":
+        return ("local a, b, c = ...\nlocal bump\nlocal gets = {}\nlocal n = 0\nfor i = a, b, c do\n  if bump then bump() end\n  emit(i)\n"
+                "  bump = function() i = i + 100 end\n  gets[#gets + 1] = function() return i end\n  n = n + 1\n  if n >= %d then break end\nend\n"
+                "for k = 1, #gets do emit(gets[k]()) end\n" % PCAP)
+    return ("local a, b = ...\nlocal fs = {}\nfor i = a, b do\n  for j = a, b do\n    fs[#fs + 1] = function() return i, j end\n  end\nend\n"
+            "for k = 1, #fs do emit(fs[k]()) end\n")
+
+
+def plus100(v):
+    """hx value + 100 as Lua computes it (small values only)"""
+    if v[0] == "i":
+        return "i%d" % (int(v[1:]) + 100)
+    return hxv(N.F(N.val_float("F" + v[1:]) + 100.0))
+
+
 def check_programs(ck, gvh, oracle):
     starts = ["I1", N.F(0.5), "S31"]
     limits = ["I5", "I3", N.F(2.5), N.F(4.0), "S33", N.F(2.0 ** 63)]
@@ -257,11 +283,24 @@ def check_programs(ck, gvh, oracle):
         for a in ("I1", N.F(0.5), "I2"):
             for b in ("I3", N.F(2.5), "S33", "I5", N.F(3.0)):
                 progs.append(("nested", src, (a, b), (kind, "nested")))
+    # closures capturing the loop variable: every iteration has its own variable
+    for which in ("capture_after", "stale_setter"):
+        src = build_closure(which)
+        for a in starts:
+            for b in limits:
+                for c in steps:
+                    progs.append((which, src, (a, b, c), ("closure", which)))
+    src = build_closure("nested_capture")
+    for a in ("I1", N.F(0.5), "I2"):
+        for b in ("I3", N.F(2.5), "S33", N.F(3.0)):
+            progs.append(("nested_capture", src, (a, b), ("closure", "nested_capture")))
     # oracle: the manual's sequence for every numeric triple needed
     need = {}
     for what, src, args, _ in progs:
-        if what == "single":
+        if what in ("single", "capture_after", "stale_setter"):
             need[manual_triple(*args)] = None
+        elif what == "nested_capture":
+            need[manual_triple(args[0], args[1], "I1")] = None
         else:
             need[manual_triple(args[0], args[1], "I1")] = None
             need[manual_triple("I4", args[1], "I-1")] = None
@@ -309,6 +348,18 @@ def check_programs(ck, gvh, oracle):
                         fin["S"] = SET["S"]
                 ev = seq + [",".join([after_tag] + [x for k in ("S", "L", "T") for x in (hxv(fin[k]), tname(fin[k]))])]
                 want = ";".join(ev)
+        elif what in ("capture_after", "stale_setter"):
+            st, seq = need[manual_triple(*args)]
+            if st.startswith("E"):
+                want_status, want = "error", None
+            elif what == "capture_after":
+                want_status, want = "ok", ";".join(seq)
+            else:
+                later = [plus100(v) for v in seq[:-1]] + seq[-1:]
+                want_status, want = "ok", ";".join(seq + later)
+        elif what == "nested_capture":
+            st, seq = need[manual_triple(args[0], args[1], "I1")]
+            want_status, want = "ok", ";".join("%s,%s" % (x, y) for x in seq for y in seq)
         else:
             a, b = args
             st1, seq = need[manual_triple(a, b, "I1")]
@@ -320,6 +371,8 @@ def check_programs(ck, gvh, oracle):
             ev += down
             ev.append(",".join([after_tag, hxv(b), tname(b)]))
             want_status, want = "ok", ";".join(ev)
+        if want == "":
+            want = "-"
         ok = (status == want_status) and (want is None or trace == want)
         if not ok:
             nbad += 1
